@@ -13,7 +13,7 @@ PROP = {
         # `AgentContext::add_lane` while it is running (-> `TaskMessageResult::AddLane` in `write_task`) and plays the
         # lane side of the protocol; after the restart the same lanes are registered again and synced.
         {"name": "e2e", "crate": "core", "bin": "sv-c05", "machine": "c05",
-         "cases": {"quick": 1600, "thorough": 20000}, "min_shard": 20, "nontrivial_min_ops": 30},
+         "cases": {"quick": 1400, "thorough": 20000}, "min_shard": 20, "nontrivial_min_ops": 30},
     ],
     "rule": "a generated history (script of attach/link/sync/unlink/command/stall/drop steps from one SplitMix64 "
             "seed) is expanded into one case per end mode: clean stop, inactivity time-out, crash after the n-th "
@@ -22,7 +22,11 @@ PROP = {
             "history uses the late rig (value / map lanes, persistent and transient, registered by addlane steps while "
             "the agent runs; re-registered after the restart at run time or during initialisation). One value in five "
             "(lane values, map values, store values; also as the last state before the stop / cut) is Option::None, "
-            "whose encoding is the EMPTY byte string. "
+            "whose encoding is the EMPTY byte string. Per history additionally: an id lookup (NodePersistence::id_for, "
+            "error other than NoStoreAvailable) fails at 1 random lookup of the first start and at 2 of the restart "
+            "after a clean stop (initialisation phase, write-task prologue, registration at run time; lanes and "
+            "stores); the lane input buffer (= init channel of a lane) is 24..4096 bytes; one history in twenty has "
+            "values of 5-12 KB in a lane and a store (8 random cuts only). "
             "distinct = distinct script+end mode (sha1 of the op lines), non-trivial = at least 30 log lines",
     "level_text": "Proof: for every store naming and every sequence of write-task events in which lanes and stores "
                   "are REGISTERED by events of the history - in the prologue of write_task (initialisation phase) or "
@@ -41,6 +45,8 @@ PROP = {
                   "and is persisted-before-published and never-older across re-registration in the next incarnation; "
                   "a value with an empty encoding is an ordinary value (put with an empty payload, restored by an init "
                   "command with an empty body; update with an empty value is not a remove). "
+                  "A failing id lookup at a registration ends the task without registering the item (never "
+                  "transient), nothing is stored or sent afterwards. "
                   "Tied to the code end to end: a real agent (value/map lanes, value/map stores, transient lane and "
                   "store) on the real runtime (AgentRouteTask::run_agent_with_store) with a recording "
                   "NodePersistence sharing one sequence counter with the remote-side frame log, run to clean stop, "
@@ -63,7 +69,9 @@ PROP = {
         "late rig: the harness's own lane implementations (value: last command; map: update/remove/clear) stand in for "
         "swimos_agent's lanes; what they hold after initialisation and answer to a sync is cross-checked by the model",
     ],
-    "assumptions": ["a crash stops every task at once (nothing reaches the store or a remote after the cut)",
+    "assumptions": ["a restore that does not complete is reported through the time box of the harness (paused clock: "
+                    "attachment confirmation within 20 s, item_init_timeout 1 s), as restart-did-not-complete",
+                    "a crash stops every task at once (nothing reaches the store or a remote after the cut)",
                     "the store applies put/update/remove/clear atomically and in call order",
                     "map keys print injectively (distinct keys have distinct Recon bytes)"],
 }
